@@ -229,6 +229,10 @@ func base() []Case {
 		// tokens must still wait for their time
 		{Name: "paced-plus-unlimited", Instances: 2, From: 20, DurMs: 1000, Discard: true, ShotMs: 1, StallAt: -1, UnlimMs: 150, UnlimFirst: true},
 		{Name: "paced-plus-unlimited", Instances: 1, From: 10, DurMs: 1200, Discard: false, ShotMs: 1, StallAt: -1, UnlimMs: 100},
+		// the same with a stall during the paced part: the profile's length is unknown, its paced
+		// tokens are bound to the 2 s window all the same
+		{Name: "stall-in-paced-plus-unlimited", Instances: 1, From: 20, DurMs: 3500, Discard: true, ShotMs: 1, StallAt: 3, StallMs: 2600, UnlimMs: 60},
+		{Name: "stall-in-paced-plus-unlimited", Instances: 2, From: 30, DurMs: 3500, Discard: true, ShotMs: 1, StallAt: 5, StallMs: 2700, UnlimMs: 40, UnlimFirst: true},
 		// schedule that started in the past: tokens overdue from the first draw on
 		{Name: "prestarted", Instances: 1, From: 20, DurMs: 3000, Discard: true, ShotMs: 1, StallAt: -1, PreStartMs: 2500},
 		{Name: "prestarted", Instances: 3, From: 30, DurMs: 3000, Discard: false, ShotMs: 1, StallAt: -1, PreStartMs: 2700},
@@ -265,6 +269,12 @@ func gen(rng *rand.Rand) Case {
 		c.StallMs = 2100 + rng.Intn(1500)
 		if c.DurMs < c.StallMs+500 {
 			c.DurMs = c.StallMs + 500
+		}
+		if rng.Intn(3) == 0 {
+			c.Name = "stall-in-paced-plus-unlimited"
+			c.Line = false
+			c.UnlimMs = 20 + rng.Intn(80)
+			c.UnlimFirst = rng.Intn(2) == 0
 		}
 	case 2:
 		c.Name = "sustained-slow"
